@@ -85,6 +85,29 @@ type harnessBroken struct{ msg string }
 
 func broken(format string, a ...any) { panic(harnessBroken{fmt.Sprintf(format, a...)}) }
 
+// codePanic: the code under test panicked inside the named call. The property forbids that for
+// any input, so the caller that owns the context reports it as a violation and abandons the context.
+type codePanic struct {
+	where string
+	val   any
+}
+
+// callCode runs one call into the code under test and turns a panic of that code into a codePanic
+func callCode(where string, f func()) {
+	defer func() {
+		if p := recover(); p != nil {
+			if hb, ok := p.(harnessBroken); ok {
+				panic(hb)
+			}
+			if cp, ok := p.(codePanic); ok {
+				panic(cp)
+			}
+			panic(codePanic{where, p})
+		}
+	}()
+	f()
+}
+
 // one cached ACL record: the record appended for the last event of a timeline prefix
 type cachedRec struct {
 	rec *consensusproto.RawRecordWithId
@@ -430,7 +453,8 @@ func uniq() []byte {
 type treeWorld struct {
 	wk      *worker
 	aw      *aclWorld
-	kind    string // signed | derived | reduced
+	kind    string // signed | derived | reduced | grown
+	touched bool   // something was delivered since the context was built
 	filt    bool
 	flavour string // full | emptydata
 	root    *treechangeproto.RawTreeChangeWithId
@@ -452,16 +476,18 @@ func (t *treeWorld) buildTree() objecttree.ObjectTree {
 		tr  objecttree.ObjectTree
 		err error
 	)
-	switch {
-	case t.filt && t.flavour == "emptydata":
-		tr, err = objecttree.BuildEmptyDataKeyFilterableObjectTree(t.store, t.aw.acl)
-	case t.filt:
-		tr, err = objecttree.BuildKeyFilterableObjectTree(t.store, t.aw.acl)
-	case t.flavour == "emptydata":
-		tr, err = objecttree.BuildEmptyDataObjectTree(t.store, t.aw.acl)
-	default:
-		tr, err = objecttree.BuildObjectTree(t.store, t.aw.acl)
-	}
+	callCode("BuildObjectTree", func() {
+		switch {
+		case t.filt && t.flavour == "emptydata":
+			tr, err = objecttree.BuildEmptyDataKeyFilterableObjectTree(t.store, t.aw.acl)
+		case t.filt:
+			tr, err = objecttree.BuildKeyFilterableObjectTree(t.store, t.aw.acl)
+		case t.flavour == "emptydata":
+			tr, err = objecttree.BuildEmptyDataObjectTree(t.store, t.aw.acl)
+		default:
+			tr, err = objecttree.BuildObjectTree(t.store, t.aw.acl)
+		}
+	})
 	if err != nil {
 		broken("building the object tree (%s/%v/%s): %v", t.kind, t.filt, t.flavour, err)
 	}
@@ -490,16 +516,20 @@ func newTreeWorld(wk *worker, aw *aclWorld, kind string, filt bool, flavour stri
 	t.cb = objecttree.NewChangeBuilder(crypto.NewKeyStorage(), t.root)
 	t.tree = t.buildTree()
 	t.bind(1, t.root.Id)
-	if kind == "reduced" {
-		// root <- snapshot by W citing record 0; the in-memory tree is then reduced to the snapshot
-		raw := t.buildChange("W", aw.recId(0), []string{t.root.Id}, t.root.Id, true)
-		t.tree.Lock()
-		_, err := t.tree.AddRawChanges(bg, objecttree.RawChangesPayload{NewHeads: []string{raw.Id}, RawChanges: []*treechangeproto.RawTreeChangeWithId{raw}})
-		t.tree.Unlock()
+	if kind == "reduced" || kind == "grown" {
+		// reduced: root <- snapshot by W citing record 0, the in-memory tree is then reduced to the
+		// snapshot; grown: root <- one ordinary change by W citing record 0
+		raw := t.buildChange("W", aw.recId(0), []string{t.root.Id}, t.root.Id, kind == "reduced")
+		var err error
+		callCode("AddRawChanges", func() {
+			t.tree.Lock()
+			defer t.tree.Unlock()
+			_, err = t.tree.AddRawChanges(bg, objecttree.RawChangesPayload{NewHeads: []string{raw.Id}, RawChanges: []*treechangeproto.RawTreeChangeWithId{raw}})
+		})
 		if err != nil {
-			broken("adding the snapshot: %v", err)
+			broken("adding the first change of a %s tree: %v", kind, err)
 		}
-		if t.tree.Root().Id != raw.Id {
+		if kind == "reduced" && t.tree.Root().Id != raw.Id {
 			broken("tree was not reduced to the snapshot (root %s)", t.tree.Root().Id)
 		}
 		t.bind(2, raw.Id)
